@@ -8,6 +8,7 @@ import (
 
 	"github.com/deadsy/sdfx/sdf"
 	v2 "github.com/deadsy/sdfx/vec/v2"
+	"github.com/deadsy/sdfx/vec/v2i"
 	v3 "github.com/deadsy/sdfx/vec/v3"
 	"pgregory.net/rapid"
 
@@ -211,6 +212,36 @@ type blend struct {
 
 func drawLeaf(t *rapid.T, label string, S float64) (sdf.SDF2, string) {
 	size := func(l string) float64 { return g.Length(t, label+l, 0.01*S, S) }
+	// a quarter of the operands are derived shapes whose bounding box the library computes from another
+	// box: an outward offset, a partial ring of rotated copies, a grid of copies (of a circle or a box: the
+	// fields stay exact outside the material, so pruning by box distance is sound for them)
+	if rapid.IntRange(0, 3).Draw(t, label+".derived") == 0 {
+		var base sdf.SDF2
+		var bd string
+		if rapid.Bool().Draw(t, label+".base-box") {
+			w, h := size(".bw"), size(".bh")
+			base, bd = sdf.Box2D(v2.Vec{X: w, Y: h}, 0), fmt.Sprintf("box(%s,%s)", ev.F(w), ev.F(h))
+		} else {
+			r := size(".br")
+			base, _ = sdf.Circle2D(r)
+			bd = fmt.Sprintf("circle(%s)", ev.F(r))
+		}
+		switch rapid.IntRange(0, 2).Draw(t, label+".derived-kind") {
+		case 0:
+			d := size(".offset")
+			return sdf.Offset2D(base, d), fmt.Sprintf("offset(%s,%s)", bd, ev.F(d))
+		case 1:
+			// copies on an arc about the origin: the operand is moved off-centre first
+			off := v2.Vec{X: size(".ox") * 3, Y: g.Coord(t, label+".oy", S)}
+			k := rapid.IntRange(1, 7).Draw(t, label+".copies")
+			step := g.F(-1.2, 1.2).Draw(t, label+".step")
+			return sdf.RotateUnion2D(sdf.Transform2D(base, sdf.Translate2d(off)), k, sdf.Rotate2d(step)), fmt.Sprintf("rotunion(%s@(%s,%s),%d,%s)", bd, ev.F(off.X), ev.F(off.Y), k, ev.F(step))
+		default:
+			nx, ny := rapid.IntRange(1, 4).Draw(t, label+".nx"), rapid.IntRange(1, 3).Draw(t, label+".ny")
+			st := v2.Vec{X: g.Coord(t, label+".sx", 3*S), Y: g.Coord(t, label+".sy", 3*S)}
+			return sdf.Array2D(base, v2i.Vec{X: nx, Y: ny}, st), fmt.Sprintf("array(%s,%dx%d,(%s,%s))", bd, nx, ny, ev.F(st.X), ev.F(st.Y))
+		}
+	}
 	switch rapid.IntRange(0, 4).Draw(t, label+".kind") {
 	case 0:
 		r := size(".r")
